@@ -3,7 +3,7 @@ xdis/cross_dis.py (C02, C04)."""
 from pyvc.engine import Loop
 from pyvc.types import Int, Bytes, IntSetList, ForAll
 from pyvc.sym import And, Or, Not, Implies, If, Len, SSet
-from contracts.common import Registry, SetOf, table_configs, REF, ctab, EXT, In, At, gen_code
+from contracts.common import Registry, SetOf, table_configs, REF, ctab, EXT, In, At, gen_code, tables
 from spec import wordcode as W, jumps as J
 
 R = Registry()
@@ -159,6 +159,7 @@ for _name, _target, _pred, _req in (
         configs=table_configs(_pred),
         params={"code": Bytes(alphabet=EVEN, maxlen=8, even=True)}, examples={"code": gen_code},
         requires=_req,
+        result=IntSetList(),
         ensures=lambda code, opc, result: SetOf(result) == lab_spec(code, opc, Len(code) // 2),
         native_post=lambda code, opc, result: [("label-set", frozenset(result) == lab_spec(code, opc, len(code) // 2)),
                                                ("no-duplicates", len(set(result)) == len(result))],
@@ -175,6 +176,7 @@ contract(
     configs=table_configs(lambda m: m.version_tuple < (3, 6)),
     params={"code": Bytes(alphabet=EVEN, maxlen=9)}, examples={"code": gen_code},
     requires=lambda code, opc: And(Len(code) >= 1, W.b_off(code, W.b_cnt(code, 0, opc.HAVE_ARGUMENT), opc.HAVE_ARGUMENT) == Len(code)),
+    result=IntSetList(),
     ensures=lambda code, opc, result: SetOf(result) == J.blab(code, W.b_cnt(code, 0, opc.HAVE_ARGUMENT), opc.HAVE_ARGUMENT, EXT(opc), REF(opc).hasjrel, REF(opc).hasjabs),
     native_post=lambda code, opc, result: [("label-set", frozenset(result) == J.blab(code, W.b_cnt(code, 0, opc.HAVE_ARGUMENT), opc.HAVE_ARGUMENT, EXT(opc), REF(opc).hasjrel, REF(opc).hasjabs))],
     loops={0: Loop("for offset, op, arg in unpack_opargs_bytecode(code, opc)",
